@@ -142,6 +142,11 @@ resources = [
         action("noop", []), action("mk", [field("names", arr(prim("string")))], ret=arr(ref("Inner"))),
         # a parameter with a default value (the params struct then needs the default-population code of a record)
         action("bump", [field("by", prim("int32"), default="5"), field("label", prim("string"), optional=True)], ret=prim("int32"))]),
+    # a root collection WITHOUT sub-resources and without any entity-level REST method, whose only entity-level entry is
+    # an action: whatever decides "is there anything below /pings/" must not look at the REST methods alone
+    resource("fam.pings", [("pings", ("id", prim("int64")))], ref("Inner"),
+        [m("create", False), m("batch_get", False), finder("byA", [field("a", prim("string"))], schema=ref("Inner")),
+         action("ping", [field("x", prim("string"))], ret=prim("string"), on_entity=True), action("tally", [], ret=prim("int32"))]),
     resource("fam.prims.subs", [("prims", ("id", prim("int64"))), ("subs", ("sub", prim("string")))], ref("Inner"),
         [m("get", True), m("create", False), m("update", True), m("delete", True), m("get_all", False, paging=True), m("batch_get", False),
          finder("byA", [field("a", prim("string"))], schema=ref("Inner")), action("poke", [field("x", prim("string"))], ret=prim("string"), on_entity=True)]),
